@@ -53,9 +53,11 @@ HEADER = list(Triple.model_fields)
 def _get_file(path: str | Path, read: bool) -> Generator[TextIO, None, None]:
     path = Path(path).expanduser().resolve()
     if path.suffix == ".gz":
-        yield gzip.open(path, mode="rt" if read else "wt", newline="")
+        with gzip.open(path, mode="rt" if read else "wt", newline="") as file:
+            yield file
     else:
-        yield open(path, mode="r" if read else "w", newline="")
+        with open(path, mode="r" if read else "w", newline="") as file:
+            yield file
 
 
 def write_triples(
